@@ -141,6 +141,44 @@ PROPS = {
         'design_ref': 'DESIGN.md 5 C10',
         'explanation': 'Base58Check layer proved over an assumed codec; the codec itself (encode/decode = reference, mutual inverses) is a bounded check',
     },
+    'C12': {
+        'modules': ['contracts.c12'],
+        'level': 'other',
+        'trusted_base': COMMON_TB,
+        'assumptions': [
+            'BOUNDED + ASSUMED at call sites: bitcoin.segwit_addr.decode/encode equal the BIP173 reference written in specs/addr.py (400 generated addresses per run: valid, cross-prefix, other witness versions, 1-4 substitutions, mixed case, random)',
+            'BOUNDED: text round trip CBitcoinAddress(str(a)) and refusal of foreign/mutated text, 300 inputs per chain (rests on the bounded base58/bech32 codecs of C10/C11)',
+            'bytes(list) of the decoded program: elements are assumed in 0..255 (guaranteed by the decoder contract)',
+            'chain tables (version bytes, prefixes) in specs/addr.py are taken from the property text',
+            'history quantifier: SelectParams postcondition does not depend on the previous selection, so "after any sequence" follows by induction on paper',
+        ],
+        'level_text': 'Proved under each of the four chains: SelectParams sets both parameter objects to the selected chain '
+                      'and rejects unknown names without a state change; CBitcoinAddress(text) returns an address of the right '
+                      'class with the decoded payload or raises CBitcoinAddressError and nothing else (every string); '
+                      'from_scriptPubKey of the four templates yields the prescribed class, version/witness version and payload; '
+                      'to_scriptPubKey rebuilds exactly the template script. Bounded: the text codecs and text round trips.',
+        'level_note': 'trusted: pyvc, z3/cvc5, assumed codec contracts (bounded-checked), specs/addr.py',
+        'design_ref': 'DESIGN.md 5 C12',
+        'explanation': 'address contracts',
+    },
+    'C18': {
+        'modules': ['contracts.c18'],
+        'level': 'other',
+        'trusted_base': COMMON_TB,
+        'assumptions': [
+            'PROVED part: framing of ping/pong/verack/getaddr/mempool under each chain; header handling of stream_deserialize on an arbitrary stream for frames whose command is not one of the seventeen known ones (the dispatch into the per-type parsers is not under contract)',
+            'BOUNDED: per-type payload layout and parse/re-frame round trip for all seventeen types, streams of 1-3 frames, 400 generated streams per chain and run; judged by byte-identical re-framing and the header layout spec, not by an independent payload encoder',
+            'msg_version: only protocol versions >= 209 are generated (msg_ser writes fields that older versions do not carry); fRelay is generated true (at versions below 70001 the flag is written but not read back - recorded as an observation in DESIGN.md, not exercised by the check)',
+            'socket.inet_pton/ntop assumed inverse on canonical text (inside the bounded unit only)',
+        ],
+        'level_text': 'Proved: exact frame bytes (magic of the selected chain, NUL-padded command, length, checksum, payload) '
+                      'for five message types; for every stream content: wrong magic -> ValueError, declared length above the limit '
+                      '-> SerializationError with exactly the 24 header bytes consumed, short frame -> SerializationTruncationError, '
+                      'bad checksum -> ValueError, success consumes exactly 24+length bytes and never more. Bounded: all seventeen types.',
+        'level_note': 'trusted: pyvc, z3/cvc5, specs/p2p.py; bounded unit runs the real code on generated messages',
+        'design_ref': 'DESIGN.md 5 C18',
+        'explanation': 'p2p contracts',
+    },
     'C15': {
         'modules': ['contracts.c15'],
         'level': 'proof',
